@@ -12,7 +12,7 @@ From Qryn Require Import model.TqSql model.Traceql model.TraceqlPlan model.Trace
      proofs.TraceqlBitsetProofs proofs.TraceqlAnalyzeProofs proofs.TraceqlEvalProofs proofs.TraceqlSelectorProofs
      proofs.TraceqlWfProofs model.TraceqlPortions proofs.TraceqlPortionsProofs
      model.TraceqlCase proofs.TraceqlIndexSearchProofs proofs.TraceqlIndexCorrectProofs proofs.TraceqlGroupedProofs
-     proofs.TraceqlTopkProofs proofs.TraceqlCorrectProofs.
+     proofs.TraceqlTopkProofs proofs.TraceqlCorrectProofs proofs.TraceqlAggProofs.
 Import ListNotations.
 Open Scope string_scope.
 
@@ -142,7 +142,8 @@ Theorem index_grouped_evaluates : forall re_match parse_float hash64 tables rec 
   forall (hv : option expr) (P : list mspan -> bool),
   match hv with Some h => having_aliases ev_fuel h | None => [] end = [] ->
   (forall h m0 rest, hv = Some h -> In (m0 :: rest) (group_rows same_tr T) ->
-     ev re_match parse_float hash64 cte al2 ["trace_id"] ev_fuel true "" (map qrow (m0 :: rest)) (qrow m0) h = Some (vbool (P (m0 :: rest)))) ->
+     exists v t, ev re_match parse_float hash64 cte al2 ["trace_id"] ev_fuel true "" (map qrow (m0 :: rest)) (qrow m0) h = Some v
+                 /\ truth v = Some t /\ is_true3 t = P (m0 :: rest)) ->
   (hv = None -> forall g, P g = true) ->
   forall withs lim,
   eval_body re_match parse_float hash64 tables rec cte false (grouped_stmt withs hv lim)
@@ -182,3 +183,24 @@ Theorem traceql_correct_single : forall re_match parse_float hash64 (c : ctx) (d
               /\ result_ok c (traceql_sem re_match parse_float false c d (q1 e ao)) res = true.
 Proof. exact TraceqlCorrectProofs.traceql_correct_single. Qed.
 Print Assumptions traceql_correct_single.
+
+(* 13. traceql_correct, one selector with an aggregate filter  {...} | count() / avg(x) / sum(x) / min(x) / max(x) <op> number
+   (x an attribute or duration): as 12, and the traces returned are those whose matched spans pass agg_sem -- the count of
+   matched spans, or the average / sum / minimum / maximum of the attribute's numeric values over the matched spans that carry
+   one (first numeric value per span), compared with the number.  Additional guards: the number printed into HAVING parses back
+   to the script's threshold (agg_guard, agg_lit_exact; both checked on every harness case). *)
+Theorem traceql_correct_agg : forall re_match parse_float hash64 (c : ctx) (d : db),
+  rf_max c = 0%Z -> db_consistent c d -> spans_capped c d ->
+  forall e : attr_exp,
+  keys_ok e = true ->
+  forallb term_lit_ok (fst (snd (analyze_cond e ([], [])))) = true ->
+  (List.length (fst (snd (analyze_cond e ([], [])))) <= 64)%nat ->
+  (cond_depth (fst (analyze_cond e ([], []))) <= 28)%nat ->
+  lits_exact e = true ->
+  forall ag : aggregator, agg_guard ag = true -> agg_lit_exact ag = true ->
+  forall (ao : andor) (n : nat) (s : select),
+  plan (q2 e ag ao) MSearch c n = Ok s ->
+  exists res, index_rows_g re_match parse_float hash64 c d s = Some res
+              /\ result_ok c (traceql_sem re_match parse_float false c d (q2 e ag ao)) res = true.
+Proof. exact TraceqlAggProofs.traceql_correct_agg. Qed.
+Print Assumptions traceql_correct_agg.
